@@ -326,7 +326,9 @@ func c12Stamping(r *core.Run) {
 	r.Check(okInc, "R12.3", "sendPacket: curPacketNr advances by one modulo 2^bits(PacketNr)", fn.Pos(), "(curPacketNr + 1) % "+itoa(mod), whyInc)
 }
 
-func itoa(i int64) string { return strings.TrimSpace(strings.Replace(strings.Repeat(" ", 0)+fmtInt(i), "+", "", -1)) }
+func itoa(i int64) string {
+	return strings.TrimSpace(strings.Replace(strings.Repeat(" ", 0)+fmtInt(i), "+", "", -1))
+}
 
 func fmtInt(i int64) string {
 	if i == 0 {
